@@ -95,6 +95,15 @@ CLAIMED = {
              '__eq__/__hash__ traced on the real classes, hash = uninterpreted function of them (QF_UF).',
         note='One recorded known finding (Path eq ignores _closed, hash includes it; the suite pins both). QuadraticBezier has no effective cache (closed form recomputed) and is not a family. Histories longer than the bound are outside.',
         design='3/C16'),
+    'C14': dict(
+        text='Path.area runs (real poly1d multiply/deriv/integ on symbolic coefficients) on closed paths of 1..4 Line/Quadratic/Cubic segments '
+             'with symbolic control points; z3 shows area = independent Green integral of the power-basis coefficients, > 0 for a '
+             'counter-clockwise triangle / convex quadrilateral, sign flip under reversed(), invariance under translated(), factor sx*sy '
+             'under scaled(), factor det under transform() (identities, all values).  path_encloses_pt runs through Path.intersect / '
+             'Line.intersect on a concrete triangle (quick 1, thorough 3 shapes, both orientations) with symbolic query and outside point '
+             'in general position and is compared with the orientation-test oracle.',
+        note='poly1d zero-trimming of symbolic leading coefficients disabled in the area families (value-preserving). Arcs (chord approximation), is_contained_by, polygons beyond 4 edges and Bezier boundaries for enclosure are outside. Enclosure queries that z3 does not finish in 60 s are reported inconclusive.',
+        design='3/C14'),
 }
 
 NOT_YET = 'check not built yet in this round (see DESIGN.md section 3 for the plan)'
